@@ -20,7 +20,7 @@ META = {
              "'at least a main-lobe width from 0 and Nyquist'; (ii) full product of analysis configurations x scale factors; "
              "non-trivial: (i) every case (A^2/2 > 0), (ii) bins whose density exceeds 1e6x its rounding tolerance"),
     "exhaustive": True,
-    "bounds": {"quick": "(i) L=16..128 every integer; 4 positions; 4 phases; A in {1e-3,1,1e3}; psll {60,100,150,200}; fs {1,1000}; order {-1,0}; N in {L,3L+1}. (ii) N in {24,64}, schedulers ltf+vectorized_ltf, 3 windows, 4 orders, c in {-3,.5,1e3,1e-3,1e-12,1e-30,1e12} on x, y, both; a in {.5,4,1024} exact and {3,1000} when the plan is unchanged",
+    "bounds": {"quick": "(i) L=16..128 every integer + {1000, 4096}; 4 positions; 4 phases; A in {1e-3,1,1e3}; psll {60,100,150,200}; fs {1,1000}; order {-1,0}; N in {L,3L+1}. (ii) N in {24,64}, schedulers ltf+vectorized_ltf, 3 windows, 4 orders, c in {-3,.5,1e3,1e-3,1e-12,1e-30,1e12} on x, y, both; a in {.5,4,1024} exact and {3,1000} when the plan is unchanged",
                "thorough": "(i) L=16..512 every integer + {1024,4096}"},
     "assumptions": ["(i) tolerance 2r+r^2 with r = 10^(-(psll-1)/20) (order -1) or 3r (order 0): the negative-frequency image and the removed mean seen through a side lobe >= psll-1 dB down, plus the rounding bound of the recurrence"],
 }
@@ -28,7 +28,7 @@ PSLL = (60.0, 100.0, 150.0, 200.0)
 
 
 def shards(tier, seed):
-    Ls = list(range(16, 129)) if tier == "quick" else list(range(16, 513)) + [1024, 4096]
+    Ls = list(range(16, 129)) + [1000, 4096] if tier == "quick" else list(range(16, 513)) + [1024, 4096]
     out = []
     step = 4 if tier == "quick" else 8
     for i in range(0, len(Ls), step):
